@@ -159,6 +159,15 @@ Proof.
 Qed.
 Print Assumptions crash_view_old_or_new_refuted.
 
+(* what does hold for every command, declare with a tag move included: a tag assignment reads as its old
+   value, its new value, or unassigned (the unassign-then-assign window of D20), never as a third version *)
+Theorem crash_tag_old_new_or_unassigned f d o es k d' : crash_point f d o es k d' ->
+  forall s n t fl, a_tag (view d') s n t fl = a_tag (view d) s n t fl \/
+                   a_tag (view d') s n t fl = a_tag (view (apply es d)) s n t fl \/
+                   a_tag (view d') s n t fl = None.
+Proof. exact (crash_tag_three f d o es k d'). Qed.
+Print Assumptions crash_tag_old_new_or_unassigned.
+
 (* no tag points at an undeclared version at any crash point of any command *)
 Theorem no_dangling_at_every_crash_point f d o es k d' : crash_point f d o es k d' ->
   no_dangling (view d) -> no_dangling (view d').
